@@ -490,20 +490,20 @@ async fn step(c: usize, cop: Cop) {
         }
         Cop::Publish { topic, v, way } => {
             let o = exec::fresh_oid();
-            e(&[ev::OP as usize, o, c, 0, ev::K_PUBLISH as usize, topic as usize, v as usize]);
+            e(&[ev::TOPIC_OP as usize, o, c, 0, topic as usize, v as usize]);
             let r = match (topic, way) {
-                (1, 0) => Broker::<Topic<1>>::publish(Topic { v, o: None }).await,
-                (1, _) => Broker::<Topic<1>>::from_registry().await.publish(Topic { v, o: None }).await,
-                (_, 0) => Broker::<Topic<2>>::publish(Topic { v, o: None }).await,
-                (_, _) => Broker::<Topic<2>>::from_registry().await.publish(Topic { v, o: None }).await,
+                (1, 0) => Broker::<Topic<1>>::publish(Topic { v, o: Some(o) }).await,
+                (1, _) => Broker::<Topic<1>>::from_registry().await.publish(Topic { v, o: Some(o) }).await,
+                (_, 0) => Broker::<Topic<2>>::publish(Topic { v, o: Some(o) }).await,
+                (_, _) => Broker::<Topic<2>>::from_registry().await.publish(Topic { v, o: Some(o) }).await,
             };
-            ret_unit(o, r);
+            e(&[ev::TOPIC_RET as usize, o, r.is_ok() as usize]);
         }
         Cop::Unsubscribe { topic, h } => {
             let Some(ent) = take(h) else { return };
             if let H::Addr(any) = &ent.h {
                 let o = exec::fresh_oid();
-                e(&[ev::OP as usize, o, c, ent.hid, ev::K_UNSUBSCRIBE as usize, topic as usize, ent.aid]);
+                e(&[ev::TOPIC_OP as usize, o, c, 2, topic as usize, ent.aid]);
                 let r = match topic {
                     1 => {
                         let ws = on_addr!(any, a => a.weak_sender::<Topic<1>>());
@@ -514,7 +514,7 @@ async fn step(c: usize, cop: Cop) {
                         Broker::<Topic<2>>::from_registry().await.unsubscribe(ws).await
                     }
                 };
-                ret_unit(o, r);
+                e(&[ev::TOPIC_RET as usize, o, r.is_ok() as usize]);
             }
             put_back(h, ent);
         }
